@@ -114,6 +114,7 @@ inductive COk (w : World) : List String → String → CompE → Prop
       findC cs' ref = some sc → COk w (path ++ [cur]) url sc →
       (∀ k ∈ sc.kids, ∀ kc, findC cs' k = some kc → COk w (path ++ [cur]) url kc) →
       (∀ un ∈ (subUnits cs'.length cs' sc).eraseDups, ∃ uu, findU us' un = some uu ∧ UOk w (path ++ [cur]) url uu) →
+      (path ≠ [] → ∀ k ∈ c.kids, ∀ kc, findC cs k = some kc → COk w path cur kc) →
       COk w path cur c
 
 theorem reqImp_of_imp {cs : List CompE} {c : CompE} {x : String × String} (h : c.imp = some x) : reqImp cs.length cs c = true := by
@@ -166,10 +167,11 @@ theorem fetchComponent_sound : ∀ (n : Nat) (w : World) (path : List String) (c
                   | some sc =>
                     simp only [hf] at h
                     obtain ⟨h1, h23⟩ := seqR_ok_iff.mp h
-                    obtain ⟨h2, h3⟩ := seqR_ok_iff.mp h23
+                    obtain ⟨h2, h34⟩ := seqR_ok_iff.mp h23
+                    obtain ⟨h3, h4⟩ := seqR_ok_iff.mp h34
                     have h2' := (allR_ok_iff _ _).mp h2
                     have h3' := (allR_ok_iff _ _).mp h3
-                    refine .imported hcur himp hlk (by simpa using hpath) hf (ih w _ url sc h1) ?_ ?_
+                    refine .imported hcur himp hlk (by simpa using hpath) hf (ih w _ url sc h1) ?_ ?_ ?_
                     · intro k hk kc hfk
                       have := h2' k hk
                       simp only [hfk] at this
@@ -181,6 +183,12 @@ theorem fetchComponent_sound : ∀ (n : Nat) (w : World) (path : List String) (c
                       | some uu =>
                         simp only [hfu] at this
                         exact ⟨uu, rfl, fetchUnits_sound n w _ url uu this⟩
+                    · intro hne k hk kc hfk
+                      have hemp : path.isEmpty = false := by cases path <;> simp_all
+                      simp only [hemp, Bool.false_eq_true, if_false] at h4
+                      have := (allR_ok_iff _ _).mp h4 k hk
+                      simp only [hfk] at this
+                      exact ih w path cur kc this
         · have hreq' : reqImp cs.length cs c = false := by simpa using hreq
           exact .noImports hcur hreq'
 
@@ -230,8 +238,8 @@ theorem fetchComponent_complete (w : World) (h : String × String → Nat) (H : 
           simp only []
           have hlt := hr.2 cur us cs c k kc hcur hcmem hk hfk
           exact ih k hk kc hfk ⟨us, cs, hcur, findC_mem hfk⟩ n (by omega)
-  | @imported path cur c sc url ref us us' cs cs' hcur himp hlk hpath hf _ _ hunits ihsc ihkids =>
-    intro _ n hn
+  | @imported path cur c sc url ref us us' cs cs' hcur himp hlk hpath hf _ _ hunits _ ihsc ihkids ihown =>
+    intro hin n hn
     cases n with
     | zero => omega
     | succ n =>
@@ -246,7 +254,7 @@ theorem fetchComponent_complete (w : World) (h : String × String → Nat) (H : 
       simp only [hcur, reqImp_of_imp himp, Bool.not_true, Bool.false_eq_true, if_false, himp, hlk]
       have hp : path.contains url = false := by simpa using hpath
       simp only [hp, Bool.false_eq_true, if_false, hf]
-      refine seqR_ok_iff.mpr ⟨?_, seqR_ok_iff.mpr ⟨(allR_ok_iff _ _).mpr ?_, (allR_ok_iff _ _).mpr ?_⟩⟩
+      refine seqR_ok_iff.mpr ⟨?_, seqR_ok_iff.mpr ⟨(allR_ok_iff _ _).mpr ?_, seqR_ok_iff.mpr ⟨(allR_ok_iff _ _).mpr ?_, ?_⟩⟩⟩
       · have := hH (url, sc.name)
         exact ihsc ⟨us', cs', hlk, findC_mem hf⟩ n (by omega)
       · intro k hk
@@ -262,5 +270,20 @@ theorem fetchComponent_complete (w : World) (h : String × String → Nat) (H : 
         have h1 := mu_nil_le w (path ++ [cur]) url
         have h2 : muF w (path ++ [cur]) url ≤ muF w (path ++ [cur]) url * (H + 1) := Nat.le_mul_of_pos_right _ (by omega)
         exact fetchUnits_complete w hok n (by omega)
+      · split
+        · rfl
+        · rename_i hemp
+          have hne : path ≠ [] := by intro he; rw [he] at hemp; simp at hemp
+          obtain ⟨us0, cs0, hlk0, hcmem⟩ := hin
+          rw [hcur] at hlk0
+          cases hlk0
+          refine (allR_ok_iff _ _).mpr ?_
+          intro k hk
+          cases hfk : findC cs k with
+          | none => rfl
+          | some kc =>
+            simp only []
+            have hlt := hr.2 cur us cs c k kc hcur hcmem hk hfk
+            exact ihown hne k hk kc hfk ⟨us, cs, hcur, findC_mem hfk⟩ n (by omega)
 
 end Cellml.Import
